@@ -467,7 +467,7 @@ def _keypoints_outputs(prog, fn):
     probs.append('cyclic: first output is not repeated at the end')
   else:
     probs += _bad(cyc[0].value, 'cyclic keypoint outputs',
-                  'tf.concat([kp_outputs, kp_outputs[0:1]], axis=0)')
+                  'tf.concat([kp_outputs, kp_outputs[:1]], axis=0)')
     gs = structural_guards(fn.node, cyc[0]) or []
     if not any(dotted(t) == 'self.is_cyclic' and p for t, p in gs):
       probs.append('the repeated output is not under `if self.is_cyclic`')
